@@ -36,6 +36,10 @@ def check (params : List String) (lines : List String) : CaseResult := Id.run do
     | "c17" :: "stack" :: fr => r := { r with infos := s!"stack {" ".intercalate fr}" :: r.infos }
     | "c17" :: "conc" :: ws => conc := some ws
     | "c17" :: "note" :: _ => pure ()
+    | ["c17", "ebgshot", _, d, q] =>
+      -- event-based gateway with the determination raced: exactly one alternative wins
+      if d != "determ=1" || q != "requests=1" then
+        r := { r with specs := s!"ebg_not_one_winner: {d} {q} after the competing flows were released into the determination together" :: r.specs }
     | "c17" :: "noquiesce" :: _ =>
       r := { r with specs := "outcome:noquiesce: the instance kept running (no quiescence) under concurrent use" :: r.specs }
     | "c17" :: "blocked" :: what =>
